@@ -116,6 +116,7 @@ def simulate(case, with_extractor):
         kidx = {k: i for i, k in enumerate(keys)}
 
         added_q, removed_q = deque(), deque()
+        added_q2, removed_q2 = deque(), deque()
         trials = []                      # every 'added': dict(K, stim, t0, key, dur)
         notes = {'added': [], 'removed': []}
         removed_pos = {}                 # (t0, stim) -> positions in the notification order
@@ -126,12 +127,16 @@ def simulate(case, with_extractor):
             tr = {'K': K0 + q._samples, 'stim': kidx[info['key']], 't0': info['t0'], 'dur': info['duration'],
                   'idx': len(trials), 'pos': counter[0]}
             trials.append(tr)
-            added_q.append(dict(info))
+            # every consumer connected to the queue receives the SAME dict object (queue._notify); the extractor
+            # writes its own keys (epoch_size, prestim_time, ...) into it
+            added_q.append(info)
+            added_q2.append(info)
             notes['added'].append((info['t0'], kidx[info['key']]))
 
         def on_removed(info):
             counter[0] += 1
-            removed_q.append(dict(info))
+            removed_q.append(info)
+            removed_q2.append(info)
             notes['removed'].append((info['t0'], kidx[info['key']]))
             removed_pos.setdefault((info['t0'], kidx[info['key']]), []).append(counter[0])
 
@@ -150,6 +155,11 @@ def simulate(case, with_extractor):
             ex = P.extract_epochs(fs, added_q, epoch_size, got.append, buffer_size=case['buffer'],
                                   empty_queue_cb=lambda: done.append(1), removed_queue=removed_q,
                                   prestim_time=pre, poststim_time=post)
+        # an optional second extractor on the same queue, with its own (different) epoch size: checked by the oracle
+        ex2, got2, out2 = None, [], []
+        if with_extractor and case.get('second'):
+            ex2 = P.extract_epochs(fs, added_q2, case['second'], got2.append, buffer_size=case['buffer'],
+                                   removed_queue=removed_q2, prestim_time=pre, poststim_time=0)
         out_lines = []
         seen_added, seen_removed = 0, 0
 
@@ -179,6 +189,16 @@ def simulate(case, with_extractor):
             else:
                 added_q.clear()
                 removed_q.clear()
+            if ex2 is not None:
+                n2 = len(got2)
+                try:
+                    ex2.send(P.PipelineData(chunk, fs, s0=acq_pos, metadata={}))
+                    out2.append((got2[n2:], 0, None))
+                except Exception as e:
+                    out2.append(([], 0, f'err {type(e).__name__}'))
+            else:
+                added_q2.clear()
+                removed_q2.clear()
             acq_pos += n
 
         for op in case['ops']:
@@ -189,14 +209,22 @@ def simulate(case, with_extractor):
             elif op[0] == 'acq':
                 acquire(op[1])
             elif op[0] == 'pause':
-                # pause position: op[1] in [0, 1000] maps to [acq_pos, n_played]
-                m = acq_pos + (n_played - acq_pos) * op[1] // 1000
+                hi = n_played
+                if len(op) > 4 and op[4]:
+                    # two-step pause: first `pause()` (stop generating now), a little more output is fetched
+                    # (silence), then `pause(t)` names the position reached by the device, not after the first call
+                    q.pause()
+                    w0 = q.pop_buffer(op[4])
+                    played.append(np.asarray(w0, dtype=float))
+                    n_played += len(w0)
+                # pause position: op[1] in [0, 1000] maps to [acq_pos, clock at the (first) pause call]
+                m = acq_pos + (hi - acq_pos) * op[1] // 1000
                 m = max(m, K0)
                 if len(op) > 3 and op[3] == 'end':
                     # snap to the end of a generated trial's waveform (if one lies in [acq_pos, n_played]) and let the
                     # acquisition catch up to it first: its epoch may already be complete when the pause arrives
                     ends = [t['K'] + len(waves[t['stim']]) for t in trials]
-                    ends = [e for e in ends if max(acq_pos, K0) <= e <= n_played]
+                    ends = [e for e in ends if max(acq_pos, K0) <= e <= hi]
                     if ends:
                         m = min(ends, key=lambda e: abs(e - m))
                         if m > acq_pos:
@@ -219,7 +247,7 @@ def simulate(case, with_extractor):
         while acq_pos < n_played:
             acquire(case['flush_chunk'])
         return {'stream': stream(), 'trials': trials, 'calls': calls, 'pauses': pauses, 'waves': waves,
-                'out': out_lines, 'notes': notes, 'K0': K0, 'removed_pos': removed_pos}
+                'out': out_lines, 'out2': out2, 'notes': notes, 'K0': K0, 'removed_pos': removed_pos}
     finally:
         np.random.set_state(state)
 
@@ -351,13 +379,20 @@ class C06(Spec):
                 ops.append(['acq', rng.choice([1, 3, wlen, rng.randint(1, max(2, g))])])
             if step in pause_at:
                 ops.append(['pause', rng.choice([0, 1000, 500, rng.randint(0, 1000), rng.randint(0, 1000)]),
-                            rng.choice([0, 0, 0.3, -0.3, 0.45, -0.45]), rng.choice(['', '', 'end'])])
+                            rng.choice([0, 0, 0.3, -0.3, 0.45, -0.45]), rng.choice(['', '', 'end']),
+                            rng.choice([0, 0, 0, 5, 40])])
                 if rng.random() < 0.7:
                     ops.append(['gen', rng.randint(1, 30)])
                     if rng.random() < 0.5:
                         ops.append(['acq', rng.randint(1, 40)])
                 ops.append(['resume'])
-        return {'kind': 'pipe', 'fs': fs, 'policy': policy, 'group': group, 'stims': stims, 'K0': K0,
+        second = None
+        if rng.random() < 0.3:
+            # another consumer of the same notifications with a different epoch size (in samples: wlen - 3 ... wlen + post)
+            # (never shorter than the waveform: the property is about epochs holding the stimulus and then silence)
+            cands = [wlen + k for k in (0, 1, 2, post_s) if 0 <= k <= dsamp and (wlen + k) / fs != epoch_size]
+            second = rng.choice(cands) / fs if cands else None
+        return {'kind': 'pipe', 'second': second, 'fs': fs, 'policy': policy, 'group': group, 'stims': stims, 'K0': K0,
                 'epoch_size': epoch_size, 'pre': pre, 'post': post, 'buffer': rng.choice([0, 0, 20 / fs]),
                 'ops': ops, 'flush': 2 * total + 200, 'flush_chunk': rng.choice([7, 50, 1000, 100000]),
                 'seed': rng.randint(0, 10 ** 6)}
@@ -444,7 +479,15 @@ class C06(Spec):
         # whose nominal duration ends a fraction of a sample after the pause position is cancelled and re-presented
         # by the queue although all its samples were played; judging it "not cancelled" from the sample grid
         # would demand more than the property states.
-        return self._check(case, sim, by_notification=True)
+        f = self._check(case, sim, by_notification=True)
+        if f is None and case.get('second'):
+            errs = [e for (_, _, e) in sim['out2'] if e]
+            if errs:
+                return f'second extractor (epoch_size {case["second"]!r}) on the same queue: {errs[0]}'
+            f = self._check(dict(case, epoch_size=case['second'], post=0), dict(sim, out=sim['out2']), by_notification=True)
+            if f is not None:
+                f = f'second extractor (epoch_size {case["second"]!r}) on the same queue: ' + f
+        return f
 
     def _check(self, case, sim, by_notification):
         """The end-to-end statement.  `cancelled` is decided either on the sample grid (a later pause position
